@@ -750,13 +750,72 @@ def check_assembly(rep, prog, m):
         stm = [ast.unparse(x) for x in ifs[0].body if not isinstance(x, ast.If)]
         blocks[fnn] = stm
     ref = [s_ for s_ in blocks['FIM_uncert']]
+
+    def block_values(fnn):
+        """what the `if multinom:` block leaves in func_ex, p0 and theta_opt, as expressions of the values on entry (straight-line
+        symbolic evaluation: temporaries, helper results and the order of independent statements do not matter)"""
+        f = prog.func(GOD, fnn)
+        blk = [n for n in f.body if isinstance(n, ast.If) and ast.unparse(n.test) == 'multinom'][0].body
+        env = {}
+
+        def val(e):
+            from sa.srcmodel import clone
+
+            class T(ast.NodeTransformer):
+                def __init__(self, shadow=()):
+                    self.shadow = set(shadow)
+
+                def visit_Lambda(self, n):
+                    own = {a.arg for a in n.args.args}
+                    return ast.Lambda(args=n.args, body=T(self.shadow | own).visit(n.body))
+
+                def visit_Name(self, n):
+                    if isinstance(n.ctx, ast.Load) and n.id in env and n.id not in self.shadow:
+                        return clone(env[n.id])
+                    return n
+            return T().visit(clone(e))
+        for st in blk:
+            if isinstance(st, ast.If):
+                continue
+            if not (isinstance(st, ast.Assign) and len(st.targets) == 1):
+                return None
+            t = st.targets[0]
+            if isinstance(t, ast.Name):
+                env[t.id] = val(st.value)
+            elif isinstance(t, ast.Tuple) and isinstance(st.value, ast.Tuple) and len(t.elts) == len(st.value.elts) and all(isinstance(x, ast.Name) for x in t.elts):
+                new_ = [val(v) for v in st.value.elts]
+                for x, v in zip(t.elts, new_):
+                    env[x.id] = v
+            else:
+                return None
+        return {k: ast.unparse(env[k]).replace(' ', '') for k in ('func_ex', 'p0', 'theta_opt') if k in env}
+    WANT = {'func_ex': 'lambdap,ns,pts:p[-1]*func_ex(p[:-1],ns,pts)',
+            'p0': 'list(p0)+[Inference.optimal_sfs_scaling(func_ex(p0,data.sample_sizes,grid_pts),data)]',
+            'theta_opt': 'Inference.optimal_sfs_scaling(func_ex(p0,data.sample_sizes,grid_pts),data)'}
+    values = {}
     for fnn, stm in blocks.items():
         sub = [s_ for s_ in stm if s_ in ref]
-        rep.ob('R-TPL', '%s theta augmentation' % fnn, sub == ref and len(ref) == 5, 'block = %s' % stm, rel, prog.func(GOD, fnn).lineno,
+        okb = sub == ref and len(ref) == 5
+        detb = 'block = %s' % stm
+        if not okb:
+            bv = block_values(fnn)
+            values[fnn] = bv
+            if bv is None:
+                detb = 'theta augmentation not found in the form the rule follows: ' + detb[:200]
+            else:
+                wrong = {k: v for k, v in bv.items() if WANT.get(k) != v}
+                missing = [k for k in ('func_ex', 'p0') if k not in bv]
+                okb = not wrong and not missing
+                detb = ('after the block: %s' % wrong) if wrong else ('the block does not set %s' % missing if missing else
+                                                                      'the block leaves func_ex = p[-1]*func_ex(p[:-1]), p0 = p0 + [optimal theta of func_ex(p0)] like its siblings')
+        rep.ob('R-TPL', '%s theta augmentation' % fnn, okb, detb, rel, prog.func(GOD, fnn).lineno,
                what='multinomial theta augmentation identical to the sibling implementations')
     # the augmentation itself: theta appended last and used as p[-1] multiplying the model of p[:-1]
     lam = [n for n in ast.walk(prog.func(GOD, 'FIM_uncert')) if isinstance(n, ast.Lambda)]
     ok = bool(lam) and ast.unparse(lam[0].body) == 'p[-1] * func_multi(p[:-1], ns, pts)' and 'p0 = list(p0) + [theta_opt]' in ref
+    if not ok:
+        bv = block_values('FIM_uncert')
+        ok = bv is not None and bv.get('func_ex') == WANT['func_ex'] and bv.get('p0') == WANT['p0']
     rep.ob('R-IDX', 'theta augmentation', ok, 'theta appended last; model = p[-1]*func(p[:-1])', rel, prog.func(GOD, 'FIM_uncert').lineno, what='theta is the last parameter on both sides')
 
 
